@@ -27,7 +27,8 @@ def handler(case):
     global WS
     WS = float(case.get("wscale", 64))      # weights are RELATIVE: w/64 (all <= 1), w/8 or w itself (up to 64) describe the same law
     atoms = Atoms("Ar2", positions=[[0, 0, 0], [1, 1, 1]])
-    mc = MonteCarlo(atoms, max_cycles=case["cycles"], seed=case["seed"])
+    mc = MonteCarlo(atoms, max_cycles=case.get("built_with_cycles", case["cycles"]), seed=case["seed"])
+    mc.max_cycles = case["cycles"]          # (a public setting: re-tuned on the existing object)
     refused = []
     for e in case["adds"]:
         try:
